@@ -456,10 +456,16 @@ def run(ctx):
     check_scratch(ctx)
     check_fresh_operands(ctx)
     check_lookup(ctx)
+    # 0 is an ordinary id / value / address: nothing int-valued may be tested by truthiness (nqsa/truth.py)
+    from .. import truth
+    truth.check(ctx, "C03.Z", ['netqasm.lang.parsing.text'])
 
 
 T = "netqasm/lang/parsing/text.py"
 SEEDS = [
+    dict(id="c03-label-lookup-truthiness", file=T, expect="C03.Z", construct="_update_labels_in_operand",
+         old="        for label, value in labels.items():\n            if operand.name == label:\n                return value\n", new="        value = labels.get(operand.name)\n        if value:\n            return value\n"),
+
     dict(id="c03-parse-address-memoised", edits=[
         (T, "def parse_address(address: str)", "@lru_cache(maxsize=None)\ndef parse_address(address: str)"),
         (T, "from itertools import count\n", "from itertools import count\nfrom functools import lru_cache\n")], expect="C03.S", construct="parse_address:returns-fresh-objects"),
